@@ -203,6 +203,12 @@ func IteI32(c bool, a, b int32) int32 {
 	}
 	return b
 }
+func IteU8(c bool, a, b uint8) uint8 {
+	if c {
+		return a
+	}
+	return b
+}
 func IteI64(c bool, a, b int64) int64 {
 	if c {
 		return a
